@@ -1,5 +1,10 @@
 """C10 - search results do not depend on output format or input container."""
+import contextlib
+import io
 import itertools
+import math
+import os
+import random
 import numpy as np
 import pandas as pd
 import gens
@@ -8,19 +13,751 @@ from core import call_impl
 import c07
 import customs
 from fractions import Fraction
+from rapidfuzz.distance import Levenshtein as RL
+
+ENGINES = ['symdel', 'nearest_neighbor', 'hash_based', 'kdtree']
+DB_ENGINES = ['SymdelDB.lookup', 'LookupDB.lookup']
+ANY_ALPHABET = ('symdel', 'nearest_neighbor', 'SymdelDB.lookup')      # the other engines are documented for amino-acid letters only
+CONTS = ['list', 'tuple', 'ndarray', 'series_default', 'series_shifted', 'series_permuted', 'series_string']
+# further containers of the same three kinds (list / NumPy array / pandas Series "with any index labels")
+CONTS_MORE = ['ndarray_object', 'list_npstr', 'series_dup', 'series_float', 'series_negative', 'series_self', 'series_multi',
+              'series_datetime', 'series_stringdtype', 'series_object', 'series_category', 'series_slice', 'series_named']
+OUTS = ['triplets', 'coo_matrix', 'ndarray']
+SERIES_INDEXED = set(c for c in CONTS + CONTS_MORE if c.startswith('series_') and c not in ('series_default', 'series_stringdtype', 'series_category'))
 
 
-def containers(rng, seqs):
+def container(kind, seqs, cseed=0):
+    """The sequences `seqs` (a list of str) as a container of the given kind; label choices are a function of cseed (replayable)."""
+    r = random.Random(cseed)
     n = len(seqs)
-    perm = list(range(n))
-    rng.shuffle(perm)
-    return {
-        'list': list(seqs), 'tuple': tuple(seqs), 'ndarray': np.array(seqs, dtype=object if '' in seqs and False else None) if seqs else np.array(seqs),
-        'series_default': pd.Series(list(seqs)),
-        'series_shifted': pd.Series(list(seqs), index=range(5, 5 + n)),
-        'series_permuted': pd.Series(list(seqs), index=perm),
-        'series_string': pd.Series(list(seqs), index=['r%d' % i for i in range(n)]),
-    }
+    s = list(seqs)
+    if kind == 'list':
+        return s
+    if kind == 'tuple':
+        return tuple(s)
+    if kind == 'ndarray':
+        return np.array(s)                                   # '<U..' dtype, elements np.str_
+    if kind == 'ndarray_object':
+        a = np.empty(n, dtype=object)                        # object dtype, elements str
+        a[:] = s
+        return a
+    if kind == 'list_npstr':
+        return [np.str_(x) for x in s]
+    if kind == 'series_default':
+        return pd.Series(s)
+    if kind == 'series_shifted':
+        return pd.Series(s, index=range(5, 5 + n))
+    if kind == 'series_permuted':
+        perm = list(range(n))
+        r.shuffle(perm)
+        if n > 1 and perm == list(range(n)):
+            perm = perm[1:] + perm[:1]
+        return pd.Series(s, index=perm)
+    if kind == 'series_string':
+        return pd.Series(s, index=['r%d' % i for i in range(n)])
+    if kind == 'series_dup':                                 # equal labels: all one label / pairs / alternating / positions of other rows
+        return pd.Series(s, index=r.choice([[0] * n, [i // 2 for i in range(n)], [i % 2 for i in range(n)],
+                                            [r.randrange(n) for _ in range(n)]]))
+    if kind == 'series_float':
+        return pd.Series(s, index=[n - i - 0.5 for i in range(n)])
+    if kind == 'series_negative':
+        return pd.Series(s, index=[-1 - i for i in range(n)])
+    if kind == 'series_self':                                # the sequences label themselves
+        return pd.Series(s, index=list(s))
+    if kind == 'series_multi':
+        return pd.Series(s, index=pd.MultiIndex.from_tuples([(i % 2, n - i) for i in range(n)]))
+    if kind == 'series_datetime':
+        return pd.Series(s, index=pd.date_range('2020-01-01', periods=n)[::-1])
+    if kind == 'series_stringdtype':
+        return pd.Series(s, dtype='string')
+    if kind == 'series_object':
+        return pd.Series(s, index=range(n, 2 * n), dtype=object)
+    if kind == 'series_category':
+        return pd.Series(s, dtype='category')
+    if kind == 'series_slice':                               # a window of a longer column, as after df[a:b] / a filter
+        pad = ['CASSF', 'CASSW', 'CAF']
+        return pd.Series(pad + s + pad).iloc[len(pad):len(pad) + n]
+    if kind == 'series_named':
+        return pd.Series(s, index=range(n - 1, -1, -1), name='CDR3B')
+    raise KeyError(kind)
+
+
+def scaled_distance(num, den):
+    """num/den * Levenshtein (den a power of two: exact in binary floating point); symmetric, d(x, x) = 0."""
+    if den == 1:
+        return lambda a, b: num * RL.distance(a, b)
+    return lambda a, b: num * RL.distance(a, b) / den
+
+
+def mode_k(d):
+    m = d['mode']
+    return m[2] if isinstance(m, (list, tuple)) and m[0] == 'custom' else d.get('k', 1)
+
+
+def thunk(nn, d, output_type=None, holder=None):
+    """The search call described by d (every option a case needs is carried by d, so a replay re-runs the same call).
+    holder: a dict the containers are stored in / taken from (repeated calls on one object)."""
+    seqs, seqs2 = d['seqs'], d.get('seqs2')
+    ot = output_type or d['output_type']
+    if holder is not None and 'cs' in holder:
+        cs, cs2 = holder['cs'], holder.get('cs2')
+    else:
+        cs = container(d['container'], seqs, d.get('cseed', 0))
+        cs2 = None if seqs2 is None else container(d.get('container2') or d['container'], seqs2, d.get('cseed', 0) + 1)
+        if holder is not None:
+            holder['cs'], holder['cs2'] = cs, cs2
+    mode, k = d['mode'], mode_k(d)
+    opts = dict(d.get('opts') or {})
+    cd = None
+    if mode == 'ham':
+        cd = 'hamming'
+    elif isinstance(mode, (list, tuple)) and mode[0] == 'custom':
+        cd = customs.make(mode[1])
+    elif isinstance(mode, (list, tuple)) and mode[0] == 'scaled':
+        cd = scaled_distance(mode[1], mode[2])
+    if opts.get('max_custom_distance') == 'inf':
+        opts['max_custom_distance'] = float('inf')
+    quiet = opts.get('progress')
+    eng = d['engine']
+    kw = dict(output_type=ot)
+    if cd is not None:
+        kw['custom_distance'] = cd
+    kw.update(opts)
+    if eng in ENGINES:
+        fn = getattr(nn, eng)
+        kw['max_edits'] = k
+        if seqs2 is not None:
+            kw['seqs2'] = cs2
+        call = lambda: fn(cs, **kw)
+    elif eng == 'SymdelDB.lookup':
+        call = lambda: nn.SymdelDB(cs, k).lookup(cs2, **kw)
+    elif eng == 'LookupDB.lookup':
+        call = lambda: nn.LookupDB(cs).lookup(cs2, max_edits=k, **kw)
+    else:
+        raise KeyError(eng)
+    if not quiet:
+        return call
+
+    def silent():                                            # the progress bar goes to stderr
+        with contextlib.redirect_stderr(io.StringIO()):
+            return call()
+    return silent
+
+
+def model_request(d):
+    """Oracle request for the triplets of the call d: all pairs inside the radius (radii), by the model's exhaustive definition."""
+    mode, k, seqs, seqs2 = d['mode'], mode_k(d), d['seqs'], d.get('seqs2')
+    base = 'api_brute_self_' if seqs2 is None else 'api_brute_cross_'
+    tail = [seqs] if seqs2 is None else [seqs, seqs2]
+    if isinstance(mode, (list, tuple)) and mode[0] == 'custom':
+        maxc = (d.get('opts') or {}).get('max_custom_distance')
+        maxc = None if maxc in (None, 'inf') or maxc == float('inf') else Fraction(maxc)
+        return (base + 'custom', [mode[1], k, maxc] + tail)
+    return (base + ('ham' if mode == 'ham' else 'lev'), [k] + tail)
+
+
+def model_triplets(d, raw):
+    t = canon_model(raw)
+    m = d['mode']
+    if isinstance(m, (list, tuple)) and m[0] == 'scaled':     # d = num/den * lev, no custom radius: kept iff lev <= k
+        t = [(a, b, c * Fraction(m[1], m[2])) for a, b, c in t]
+    return t
+
+
+def dense_request(d, trip):
+    """Dense form by the model (entries are integers there: rational distances are scaled by their common denominator)."""
+    scale = 1
+    for _, _, c in trip:
+        scale = scale * Fraction(c).denominator // math.gcd(scale, Fraction(c).denominator)
+    nrows = len(d['seqs'])
+    ncols = len(d['seqs2']) if d.get('seqs2') is not None else nrows
+    return ('api_coo_dense', [nrows, ncols, [(int(a), int(b), int(Fraction(c) * scale)) for a, b, c in trip]]), scale
+
+
+def judge(d, ot, g, trip, dm):
+    """-> (ok, why).  trip: expected triplets (canonical), dm: expected dense matrix (nested lists of Fraction)."""
+    if g[0] != 'ok':
+        return False, 'raised %s' % g[1]
+    seqs, seqs2 = d['seqs'], d.get('seqs2')
+    try:
+        if ot == 'triplets':
+            return canon_triplets(g[1]) == trip, 'triplets differ from the expected ones'
+        m = g[1].toarray() if ot == 'coo_matrix' else np.asarray(g[1])
+        exp = np.array(dm, dtype=float).reshape(len(seqs), len(seqs2) if seqs2 is not None else len(seqs))
+        ok = m.shape == exp.shape and np.array_equal(np.asarray(m, dtype=float), exp)
+        why = 'matrix (shape %s) differs from the dense form of the triplets (shape %s)' % (m.shape, exp.shape)
+        if not ok and m.shape == exp.shape:
+            bad = np.argwhere(np.asarray(m, dtype=float) != exp)
+            r, q = (int(x) for x in bad[0])
+            why += ': entry [r=%d, q=%d] is %s, expected %s (%d entries differ)' % (r, q, m[r, q], exp[r, q], len(bad))
+        return ok, why
+    except Exception as e:
+        return False, 'result not interpretable: %r' % (e,)
+
+
+def site_of(d):
+    eng = d['engine']
+    if d.get('family') not in (None, 'product'):
+        return 'nn.%s[%s]' % (eng, d['family'])
+    return 'nn.%s[%s]' % (eng, 'series-index' if d['container'] in ('series_shifted', 'series_permuted', 'series_string') else 'format')
+
+
+def describe(d):
+    return '%s(%s as %s%s, output_type=%s, mode=%s, max_edits=%d%s)' % (
+        d['engine'], d['seqs'] if len(d['seqs']) <= 16 else d['seqs'][:16] + ['... %d sequences' % len(d['seqs'])], d['container'],
+        '' if d.get('seqs2') is None else ', seqs2=%s as %s' % (d['seqs2'] if len(d['seqs2']) <= 16 else d['seqs2'][:16] + ['...'],
+                                                                  d.get('container2') or d['container']),
+        d['output_type'], d['mode'], mode_k(d), ''.join(', %s=%s' % kv for kv in sorted((d.get('opts') or {}).items())))
+
+
+def run_plan(ctx, nn, plan, vm=False):
+    """Evaluate the calls of `plan` (list of case descriptions).  Expected triplets: the model; expected matrices: the model's dense
+    form of those triplets.  A case with d['model'] False has no unambiguous model (max_returns with ties, an option the property does
+    not pin): its matrix forms are compared with the dense form (by the model) of the triplets the same call returns with
+    output_type='triplets' - the agreement the property states."""
+    with_model = [d for d in plan if d.get('model', True)]
+    raws = ctx.oracle.run_parallel([model_request(d) for d in with_model])
+    trips = {}
+    for d, raw in zip(with_model, raws):
+        if isinstance(raw, Exception):
+            raise raw
+        trips[id(d)] = model_triplets(d, raw)
+    for d in plan:
+        if not d.get('model', True):
+            g = call_impl(thunk(nn, d, output_type='triplets'))
+            try:
+                trips[id(d)] = canon_triplets(g[1]) if g[0] == 'ok' else None
+            except Exception:
+                trips[id(d)] = None
+    dreqs, scales = [], []
+    for d in plan:
+        rq, sc = dense_request(d, trips[id(d)] or [])
+        dreqs.append(rq)
+        scales.append(sc)
+    dense = [[[Fraction(x, sc) for x in row] for row in m] for m, sc in zip(ctx.oracle.run_parallel(dreqs), scales)]
+    for d, dm in zip(plan, dense):
+        t = trips[id(d)]
+        ot = d['output_type']
+        fam = d.get('family', 'product')
+        if t is None:
+            ok, why = False, 'the call with output_type=triplets raised or returned no triplet list'
+        else:
+            for extra in d.get('before') or []:                # earlier calls in the same process (module-level state, same objects)
+                call_impl(thunk(nn, extra))
+            ok, why = judge(d, ot, call_impl(thunk(nn, d)), t, dm)
+        nt = bool(t) and (d['container'] != 'list' or ot != 'triplets' or fam != 'product')
+        ctx.count('container=' + d['container'])
+        if d.get('container2'):
+            ctx.count('container2=' + d['container2'])
+        ctx.count('output=' + ot)
+        ctx.count('engine=' + d['engine'])
+        if fam != 'product':
+            ctx.count('family=' + fam)
+        for o in sorted(d.get('opts') or {}):
+            ctx.count('option=' + o)
+        if isinstance(d['mode'], (list, tuple)) and d['mode'][0] == 'custom':
+            ctx.count('custom_distance_matrix' if ot != 'triplets' else 'custom_distance_triplets')
+        small = dict(d, seqs=d['seqs'][:12], seqs2=None if d.get('seqs2') is None else d['seqs2'][:12]) if len(d['seqs']) > 12 else d
+        ctx.case(sample=small if nt and fam == 'product' and len(ctx.samples) < 6 else None,
+                 nontrivial_key=(d['engine'], d['container'], d.get('container2'), ot, str(d['mode']), mode_k(d), tuple(d['seqs']),
+                                 tuple(d.get('seqs2') or ()), str(sorted((d.get('opts') or {}).items())), fam) if nt else None)
+        if not ok:
+            ctx.violation('property', '%s: %s' % (describe(d), why), d, site=site_of(d))
+        if len(ctx.violations) > 8:
+            break
+    if vm and plan:
+        ctx.add_vm(*dreqs[0], [[int(x * scales[0]) for x in row] for row in dense[0]])
+
+
+# ------------------------------------------------------------------ generators of the added case families
+ALPHABETS = {'lower': 'acdefg', 'digits': '0123', 'greek': 'ΑΒΓΔ', 'cjk': '汉字表', 'astral': '\U0001F600\U0001F601\U00010348',
+             'space': ' -_.', 'mixedcase': 'aAcC', 'aa': gens.AA}
+
+
+def family(rng, alphabet, n, maxlen=8, minlen=1, maxmut=2):
+    """n strings in small clonal families (neighbours at distance 0..maxmut guaranteed to occur)."""
+    out = []
+    while len(out) < n:
+        root = ''.join(rng.choice(alphabet) for _ in range(rng.randint(max(minlen, 1), maxlen)))
+        for _ in range(rng.randint(1, 4)):
+            s = gens.mutate(rng, root, alphabet, rng.randint(0, maxmut))
+            if minlen <= len(s) <= maxlen + 2:
+                out.append(s)
+    out = out[:n]
+    rng.shuffle(out)
+    return out
+
+
+def star(rng, leaves):
+    """A centre and `leaves` one-substitution variants at distinct positions (leaves are two substitutions apart)."""
+    L = rng.randint(max(leaves, 5), max(leaves, 5) + 4)
+    root = ''.join(rng.choice(gens.AA) for _ in range(L))
+    out = [root]
+    for pos in rng.sample(range(L), leaves):
+        out.append(root[:pos] + rng.choice([c for c in gens.AA if c != root[pos]]) + root[pos + 1:])
+    return out
+
+
+def queries_for(rng, seqs, alphabet, nq):
+    qs = [rng.choice(seqs) if rng.random() < 0.4 else (gens.mutate(rng, rng.choice(seqs), alphabet, 1) or rng.choice(alphabet)) for _ in range(nq)]
+    return qs
+
+
+def pick_mode(rng, eng, allow_custom=True):
+    x = rng.random()
+    if x < 0.45 or (not allow_custom and x >= 0.75):
+        return 'lev'
+    if x < 0.75:
+        return 'ham'
+    return ['custom', rng.choice([1, 2, 4]), 1 if eng in ('hash_based', 'LookupDB.lookup') else rng.choice([1, 2])]
+
+
+def gen_cases(ctx):
+    """The added case families (see NOTES.md of the coverage audit): each is a list of case descriptions for run_plan."""
+    rng = ctx.rng
+    q = ctx.quick
+    plan = []
+
+    def add(fam, eng, seqs, cont='list', ot='ndarray', mode='lev', k=1, seqs2=None, cont2=None, opts=None, model=True, before=None):
+        if eng in DB_ENGINES and seqs2 is None:
+            seqs2 = list(seqs)
+        d = dict(family=fam, engine=eng, container=cont, container2=cont2, cseed=rng.randrange(10 ** 6), output_type=ot, mode=mode, k=k,
+                 seqs=list(seqs), seqs2=None if seqs2 is None else list(seqs2), opts=opts or {}, model=model)
+        if before:
+            d['before'] = before
+        plan.append(d)
+        return d
+
+    def aa_seqs(n, ham=False, maxlen=11):
+        s = c07.ham_repertoire(rng, n) if ham else repertoire(rng, n, extras=False, minlen=1)
+        return [x for x in s if 1 <= len(x) <= maxlen] or ['CAF', 'CAW']
+
+    # -- radius: max_edits 2 and 3 in both distance modes, and a radius above every string length (every pair a neighbour)
+    for _ in range(24 if q else 80):
+        eng = rng.choice(ENGINES + DB_ENGINES)
+        ham = rng.random() < 0.4
+        k = rng.choice([2, 3])
+        if eng in ('hash_based', 'LookupDB.lookup'):
+            k, seqs = 2, family(rng, gens.AA, rng.randint(2, 6), maxlen=4)          # the edit ball grows as (40 L)^k
+        else:
+            seqs = aa_seqs(rng.randint(2, 10), ham)
+        s2 = queries_for(rng, seqs, gens.AA, rng.randint(1, 5)) if eng in DB_ENGINES or (eng in ('symdel', 'nearest_neighbor') and rng.random() < 0.4) else None
+        add('radius', eng, seqs, rng.choice(CONTS), rng.choice(OUTS), 'ham' if ham else 'lev', k, s2)
+    for _ in range(8 if q else 30):
+        eng = rng.choice(['symdel', 'nearest_neighbor', 'kdtree', 'SymdelDB.lookup'])
+        seqs = family(rng, 'AC', rng.randint(2, 7), maxlen=3)
+        add('radius_all_pairs', eng, seqs, rng.choice(CONTS), rng.choice(['coo_matrix', 'ndarray']), 'lev', rng.choice([4, 5, 6]),
+            queries_for(rng, seqs, 'AC', rng.randint(1, 4)) if eng == 'SymdelDB.lookup' else None)
+
+    # -- sizes: one sequence, one query, two equal sequences, all sequences equal, more queries than references and the reverse
+    for eng in ENGINES + DB_ENGINES:
+        for ot in OUTS if not q else [rng.choice(OUTS), 'ndarray']:
+            one = [rng.choice(['CAF', 'A', 'CASSLGQETQYF'])]
+            add('size_one', eng, one, rng.choice(CONTS + CONTS_MORE), ot, rng.choice(['lev', 'ham']))
+            add('size_equal_seqs', eng, one * rng.choice([2, 5]), rng.choice(CONTS + CONTS_MORE), ot, rng.choice(['lev', 'ham']))
+        if eng in ('symdel', 'nearest_neighbor') or eng in DB_ENGINES:
+            seqs = aa_seqs(rng.randint(3, 8))
+            add('size_one_query', eng, seqs, rng.choice(CONTS), rng.choice(OUTS), 'lev', 1, [rng.choice(seqs)], rng.choice(CONTS))
+            add('size_one_reference', eng, [rng.choice(seqs)], rng.choice(CONTS), rng.choice(OUTS), 'lev', 1, seqs, rng.choice(CONTS))
+            add('size_wide', eng, seqs[:2], rng.choice(CONTS), rng.choice(['coo_matrix', 'ndarray']), 'lev', 1,
+                queries_for(rng, seqs[:2], gens.AA, rng.randint(9, 20)), rng.choice(CONTS))
+
+    # -- further containers, and two collections in containers of different kinds
+    kinds = list(CONTS_MORE)
+    rng.shuffle(kinds)
+    for i, cont in enumerate(kinds * (4 if q else 8)):
+        for eng in (ENGINES + DB_ENGINES if not q else [ENGINES[i % 4], rng.choice(ENGINES + DB_ENGINES)]):
+            mode = pick_mode(rng, eng)
+            seqs = aa_seqs(rng.randint(2, 12), mode == 'ham')
+            two = eng in DB_ENGINES or (eng in ('symdel', 'nearest_neighbor') and rng.random() < 0.4)
+            s2 = queries_for(rng, seqs, gens.AA, rng.randint(1, 6)) if two else None
+            add('container', eng, seqs, cont, rng.choice(OUTS), mode, 1, s2, rng.choice(CONTS + CONTS_MORE) if two else None)
+    for _ in range(32 if q else 120):
+        eng = rng.choice(['symdel', 'nearest_neighbor'] + DB_ENGINES)
+        mode = pick_mode(rng, eng)
+        seqs = aa_seqs(rng.randint(2, 10), mode == 'ham')
+        c1, c2 = rng.sample(CONTS + CONTS_MORE, 2)
+        add('container_mixed', eng, seqs, c1, rng.choice(OUTS), mode, 1, queries_for(rng, seqs, gens.AA, rng.randint(1, 7)), c2)
+
+    # -- database objects: every output type and container (one object queried repeatedly: database_history_cases)
+    for _ in range(40 if q else 150):
+        eng = rng.choice(DB_ENGINES)
+        mode = pick_mode(rng, eng)
+        seqs = aa_seqs(rng.randint(2, 12), mode == 'ham')
+        add('database', eng, seqs, rng.choice(CONTS), rng.choice(OUTS), mode, 1, queries_for(rng, seqs, gens.AA, rng.randint(1, 8)), rng.choice(CONTS))
+
+    # -- options next to the output type (one or two non-default options at a time)
+    eligible = {'n_cpu': ['kdtree', 'kdtree'] + ENGINES, 'max_returns': ['kdtree', 'kdtree'] + ENGINES, 'compression': ['kdtree'],
+                'progress': ['symdel', 'hash_based'] + DB_ENGINES, 'maxc': ENGINES + DB_ENGINES, 'maxc_ignored': ENGINES + DB_ENGINES,
+                'two': ['kdtree', 'kdtree'] + ENGINES}
+    eligible['max_returns'] = eligible['two'] = ['kdtree'] * 8 + ENGINES
+    for choice in sorted(eligible) * (6 if q else 30):
+        eng = rng.choice(eligible[choice])
+        mode = pick_mode(rng, eng, allow_custom=choice != 'maxc_ignored')
+        seqs = aa_seqs(rng.randint(3, 12), mode == 'ham')
+        opts, model = {}, True
+        if choice in ('n_cpu', 'two'):
+            opts['n_cpu'] = rng.choice([2, 3])                      # kdtree: worker processes; elsewhere ignored
+        if choice in ('max_returns', 'two'):
+            # kdtree: top-m per query; elsewhere documented as ignored: not pinned here.  A star (centre + leaves at pairwise distance 2)
+            # makes the cut bite: the centre keeps m of its leaves, every leaf keeps the centre - the triplets are not symmetric
+            opts['max_returns'] = rng.choice([1, 1, 2, 3])
+            model = False
+            if mode not in ('lev', 'ham'):
+                mode = 'lev'
+            seqs = star(rng, opts['max_returns'] + rng.randint(1, 3)) + aa_seqs(rng.randint(1, 4), mode == 'ham')
+            rng.shuffle(seqs)
+        if choice == 'compression' or (choice == 'two' and eng == 'kdtree'):
+            opts['compression'] = rng.choice([2, 3, 20])
+        if choice == 'progress':
+            opts['progress'] = True
+        if choice == 'maxc':
+            mode = ['custom', rng.choice([1, 2, 4]), 1 if eng in ('hash_based', 'LookupDB.lookup') else rng.choice([1, 2])]
+            opts['max_custom_distance'] = rng.choice([0, 1, 1.5, 2, 3, 4.0, 6])
+        if choice == 'maxc_ignored':
+            opts['max_custom_distance'] = rng.choice([0, 0.5, 3])    # documented as ignored without a custom distance: not pinned here
+            model = False
+        two = eng in DB_ENGINES or (eng in ('symdel', 'nearest_neighbor') and rng.random() < 0.3)
+        add('option_' + choice, eng, seqs, rng.choice(CONTS), rng.choice(['coo_matrix', 'ndarray']), mode, mode[2] if isinstance(mode, list) else 1,
+            queries_for(rng, seqs, gens.AA, rng.randint(1, 6)) if two else None, None, opts, model)
+
+    # -- distance values across integer widths and fractions: d = num/den * lev must be carried unchanged
+    for num, den in [(100, 1), (255, 1), (256, 1), (65536, 1), (2 ** 24 + 1, 1), (2 ** 31, 1), (2 ** 33, 1), (2 ** 53 - 1, 1), (1, 4), (3, 8), (10 ** 6 + 1, 2)] * (1 if q else 4):
+        eng = rng.choice(ENGINES + ['SymdelDB.lookup'])
+        k = rng.choice([1, 2]) if eng != 'hash_based' else 1
+        seqs = star(rng, rng.randint(1, 3)) + aa_seqs(rng.randint(1, 7))          # distances 1 and 2 occur
+        rng.shuffle(seqs)
+        s2 = queries_for(rng, seqs, gens.AA, 4) if eng == 'SymdelDB.lookup' else None
+        for ot in (['coo_matrix', 'ndarray'] if rng.random() < 0.7 else OUTS):
+            add('distance_values', eng, seqs, rng.choice(CONTS), ot, ['scaled', num, den], k, s2)
+
+    # -- alphabets other than amino acids (engines taking arbitrary strings), empty strings among the sequences
+    for name in sorted(ALPHABETS):
+        if name == 'aa':
+            continue
+        al = ALPHABETS[name]
+        for _ in range(2 if q else 6):
+            eng = rng.choice(ANY_ALPHABET)
+            seqs = family(rng, al, rng.randint(2, 9), maxlen=6)
+            two = eng == 'SymdelDB.lookup' or rng.random() < 0.4
+            # default (Levenshtein) mode: C01 / C03 quantify over any alphabet, the Hamming statement (C07) over amino-acid strings
+            add('alphabet_' + name, eng, seqs, rng.choice(CONTS + ['ndarray_object', 'series_self', 'series_stringdtype']), rng.choice(OUTS),
+                'lev', rng.choice([1, 2]), queries_for(rng, seqs, al, rng.randint(1, 5)) if two else None)
+    for eng in ENGINES + DB_ENGINES:
+        seqs = family(rng, 'AC', rng.randint(2, 6), maxlen=3) + ['', rng.choice('AC')] + ([''] if rng.random() < 0.5 else [])
+        rng.shuffle(seqs)
+        add('empty_string', eng, seqs, rng.choice(CONTS + ['ndarray_object']), rng.choice(OUTS), 'lev', 1,
+            ['', 'A', 'CA'] if eng in DB_ENGINES else None)
+
+    # -- long sequences (beyond 127 / 255 residues)
+    for _ in range(3 if q else 8):
+        L = rng.choice([128, 130, 256, 300])
+        root = ''.join(rng.choice(gens.AA) for _ in range(L))
+        seqs = [root] + [gens.mutate(rng, root, gens.AA, rng.randint(0, 2)) for _ in range(rng.randint(1, 3))]
+        eng = rng.choice(['symdel', 'nearest_neighbor', 'kdtree', 'SymdelDB.lookup'])
+        add('long_sequences', eng, seqs, rng.choice(['list', 'ndarray', 'series_permuted']), rng.choice(OUTS), 'lev', 2,
+            seqs[::-1] if eng == 'SymdelDB.lookup' else None)
+
+    # -- repeated calls: an earlier call with other sequences / another output type in the same process (module-level state)
+    for _ in range(12 if q else 40):
+        eng = rng.choice(ENGINES)
+        mode = pick_mode(rng, eng)
+        seqs = aa_seqs(rng.randint(2, 10), mode == 'ham')
+        other = dict(family='repeat', engine=rng.choice(ENGINES), container=rng.choice(CONTS), cseed=1, output_type=rng.choice(OUTS),
+                     mode=rng.choice(['lev', 'ham']), k=rng.choice([1, 2]), seqs=aa_seqs(rng.randint(2, 12)), seqs2=None,
+                     opts=dict(n_cpu=2) if rng.random() < 0.3 else {})
+        if other['engine'] == 'hash_based':
+            other['k'] = 1
+        add('repeat_after_other_call', eng, seqs, rng.choice(CONTS), rng.choice(OUTS), mode, mode[2] if isinstance(mode, list) else 1, before=[other])
+    return plan
+
+
+def large_cases(ctx):
+    """Collections crossing 127/128 and 255/256 positions (index widths of the sparse form), one expected result shared by the calls."""
+    rng = ctx.rng
+    plan = []
+    n = rng.choice([258, 270, 300])
+    seqs = [s for s in repertoire(rng, n + 40, extras=False, minlen=2) if 2 <= len(s) <= 12][:n]
+    combos = [('symdel', 'ndarray'), ('kdtree', 'coo_matrix'), ('hash_based', 'ndarray'), ('nearest_neighbor', 'coo_matrix'), ('kdtree', 'triplets')]
+    for eng, ot in (combos if not ctx.quick else rng.sample(combos[:4], 3)):
+        plan.append(dict(family='large_square', engine=eng, container=rng.choice(['list', 'ndarray', 'series_permuted', 'series_shifted']),
+                         container2=None, cseed=rng.randrange(10 ** 6), output_type=ot, mode='lev', k=1, seqs=seqs, seqs2=None, opts={}, model=True))
+    nr, nq = rng.choice([(130, 262), (262, 130), (129, 257)])
+    refs = seqs[:nr]
+    qs = [rng.choice(refs) if rng.random() < 0.3 else (gens.mutate(rng, rng.choice(refs), gens.AA, 1) or 'A') for _ in range(nq)]
+    for eng, ot in [('symdel', 'ndarray'), ('SymdelDB.lookup', 'coo_matrix'), ('LookupDB.lookup', 'ndarray')][:2 if ctx.quick else 3]:
+        plan.append(dict(family='large_rectangular', engine=eng, container=rng.choice(['list', 'series_string']),
+                         container2=rng.choice(['ndarray', 'series_permuted']), cseed=rng.randrange(10 ** 6), output_type=ot, mode='lev', k=1,
+                         seqs=refs, seqs2=qs, opts={}, model=True))
+    return plan
+
+
+def run_same_object(ctx, nn, script):
+    """script: dict(container, cseed, contents=[first content, content after the refill in place ...], calls=[[(engine, output_type) ...] per
+    content]).  Returns False after reporting a violation (the replay carries the whole script)."""
+    cont, cseed, contents = script['container'], script['cseed'], script['contents']
+    exp = ctx.oracle.run([('api_brute_self_lev', [1, c]) for c in contents])
+    holder = {}
+    for step, content in enumerate(contents):
+        t = canon_model(exp[step])
+        base = dict(family='same_object', engine='symdel', container=cont, container2=None, cseed=cseed, output_type='triplets', mode='lev', k=1,
+                    seqs=list(content), seqs2=None, opts={}, model=True)
+        rq, sc = dense_request(base, t)
+        dm = [[Fraction(x, sc) for x in row] for row in ctx.oracle.run([rq])[0]]
+        if step > 0:                                            # refill the caller's object in place
+            holder['cs'][:] = content
+        for n, (eng, ot) in enumerate(script['calls'][step]):
+            d = dict(base, engine=eng, output_type=ot)
+            ok, why = judge(d, ot, call_impl(thunk(nn, d, holder=holder)), t, dm)
+            ctx.count('family=same_object' + ('_refilled' if step else ''))
+            ctx.count('container=' + cont)
+            ctx.count('output=' + ot)
+            ctx.case(nontrivial_key=('same_object', eng, cont, ot, step, tuple(content)) if t else None)
+            if not ok:
+                ctx.violation('property', '%s, call %d on one %s object%s (earlier calls on it: %s): %s' %
+                              (describe(d), n + 1, cont, ' refilled in place, before: %s' % contents[step - 1] if step else '',
+                               [list(c) for c in script['calls'][step][:n]], why),
+                              dict(family='same_object', script=script, failing_step=step, failing_call=[eng, ot]), site='nn.%s[same_object]' % eng)
+                return False
+    return True
+
+
+def same_object_cases(ctx, nn):
+    """One container object handed to several calls in a row (every engine, every output type), and an array / list refilled in
+    place between two calls: each answer must be the one for the content at the time of the call."""
+    rng = ctx.rng
+    for rnd in range(6 if ctx.quick else 30):
+        cont = rng.choice(['ndarray', 'ndarray_object', 'list', 'series_permuted', 'series_default', 'tuple'])
+        n = rng.randint(3, 9)
+        first = [s for s in repertoire(rng, n + 4, extras=False, minlen=2) if 2 <= len(s) <= 12][:n] or ['CAF', 'CAW', 'CAFF']
+        second = [gens.mutate(rng, s, gens.AA, rng.choice([0, 1, 1])) or 'A' for s in first]
+        rng.shuffle(second)
+        width = max(len(s) for s in first)                      # a '<U' array keeps its item size when refilled
+        second = [s[:width] for s in second]
+        contents = [first, second] if cont in ('ndarray', 'ndarray_object', 'list') else [first]
+        calls = []
+        for _ in contents:
+            c = [[e, o] for e in ENGINES for o in OUTS]
+            rng.shuffle(c)
+            calls.append(c[:6 if ctx.quick else 12])
+        if not run_same_object(ctx, nn, dict(container=cont, cseed=rng.randrange(10 ** 6), contents=contents, calls=calls)):
+            return
+
+
+def run_database_history(ctx, nn, script):
+    """script: dict(cls, ham, refs, container, cseed, steps=[[queries, container of the queries, output_type] ...])."""
+    cls, ham, refs, cont, cseed, steps = (script[x] for x in ('cls', 'ham', 'refs', 'container', 'cseed', 'steps'))
+    cs = container(cont, refs, cseed)
+    built = call_impl(lambda: nn.SymdelDB(cs, 1) if cls == 'SymdelDB' else nn.LookupDB(cs))
+    exp = ctx.oracle.run([('api_brute_cross_' + ('ham' if ham else 'lev'), [1, refs, qs]) for qs, _, _ in steps])
+    for n, ((qs, cont2, ot), raw) in enumerate(zip(steps, exp)):
+        d = dict(family='database_history', engine=cls + '.lookup', container=cont, container2=cont2, cseed=cseed, output_type=ot,
+                 mode='ham' if ham else 'lev', k=1, seqs=refs, seqs2=qs, opts={}, model=True)
+        t = canon_model(raw)
+        rq, sc = dense_request(d, t)
+        dm = [[Fraction(x, sc) for x in row] for row in ctx.oracle.run([rq])[0]]
+        if built[0] != 'ok':
+            ok, why = False, 'building the database raised %s' % built[1]
+        else:
+            cs2 = container(cont2, qs, cseed + 1 + n)
+            kw = dict(output_type=ot)
+            if ham:
+                kw['custom_distance'] = 'hamming'
+            if cls == 'LookupDB':
+                kw['max_edits'] = 1
+            ok, why = judge(d, ot, call_impl(lambda: built[1].lookup(cs2, **kw)), t, dm)
+        ctx.count('family=database_history')
+        ctx.count('output=' + ot)
+        ctx.count('container=' + cont)
+        ctx.count('container2=' + cont2)
+        ctx.case(nontrivial_key=('database_history', cls, cont, cont2, ot, n, tuple(refs), tuple(qs)) if t else None)
+        if not ok:
+            ctx.violation('property', '%s, lookup %d on one %s object (earlier lookups: %s): %s' %
+                          (describe(d), n + 1, cls, [(a, c) for a, _, c in steps[:n]], why),
+                          dict(family='database_history', script=script, failing_lookup=n), site='nn.%s.lookup[database_history]' % cls)
+            return False
+    return True
+
+
+def database_history_cases(ctx, nn):
+    """One SymdelDB / LookupDB object built once and queried several times with changing query collections, containers and output
+    types: every answer is the one of a fresh search (the matrix forms of a later lookup carry nothing of an earlier one)."""
+    rng = ctx.rng
+    for rnd in range(6 if ctx.quick else 40):
+        ham = rng.random() < 0.3
+        refs = c07.ham_repertoire(rng, rng.randint(2, 10)) if ham else repertoire(rng, rng.randint(2, 10), extras=False, minlen=1)
+        refs = [x for x in refs if 1 <= len(x) <= 11] or ['CAF', 'CAW']
+        steps = [[queries_for(rng, refs, gens.AA, rng.randint(1, 7)), rng.choice(CONTS + CONTS_MORE), rng.choice(OUTS)] for _ in range(rng.randint(3, 6))]
+        if not run_database_history(ctx, nn, dict(cls=rng.choice(['SymdelDB', 'LookupDB']), ham=ham, refs=refs, container=rng.choice(CONTS + CONTS_MORE),
+                                                  cseed=rng.randrange(10 ** 6), steps=steps)):
+            return
+
+
+# ------------------------------------------------------------------ invalid arguments
+NS = dict(np=np, pd=pd, float=float, Fraction=Fraction)
+LONG_OK = ['CASSLGQETQYF', 'CASSLGQETQFF'] * 100
+
+
+def _long(bad, where):
+    s = list(LONG_OK)
+    s[dict(first=0, middle=len(s) // 2, last=len(s) - 1)[where]] = bad
+    return s
+
+
+def value_of(expr):
+    """Invalid values are written as source text (kept in replays); only text from the tables below is ever evaluated."""
+    if expr not in KNOWN_EXPRS:
+        raise KeyError('not a value of the invalid-argument tables: %r' % (expr,))
+    return eval(expr, dict(NS, _long=_long))
+
+
+BAD = {
+    'seqs': ['[]', '()', 'np.array([])', '[1, 2]', "['CAF', None]", "['CAF', 3.5]", '7', 'None', "[b'CAF']"],
+    'max_edits': ['0', '-1', '1.0', '1.5', "'1'", 'None', 'True'],
+    'max_returns': ['0', '-2', '1.5', "'3'"],
+    'n_cpu': ['0', '-1', '1.0', "'2'", 'None'],
+    # unknown names, near misses of the three valid ones included (another capitalisation, padding, a prefix, the class name)
+    'output_type': ["'dense'", "'matrix'", 'None', '3', "'Triplets'", "'TRIPLETS'", "'COO_matrix'", "'coo_Matrix'", "'NDARRAY'", "'ndArray'",
+                    "' triplets'", "'ndarray '", "'coo'", "'triplet'", "'csr_matrix'", "''", "b'ndarray'", 'True'],
+    'max_custom_distance': ['-1', "'3'", 'None'],
+    'custom_distance': ["'levenshtein'", '(lambda a, b: 1)', '5'],
+}
+# the classes the statement names, in more shapes
+BAD_MORE = {
+    # empty input in every container; non-string elements (first / middle / last, short and long collections, every container)
+    'seqs': ["np.array([], dtype=str)", "np.array([], dtype=object)", "pd.Series([], dtype=object)", "pd.Series([], dtype=str)",
+             "pd.Series([], dtype=float)", "pd.Series([], index=pd.Index([], dtype=str), dtype=object)", "''", '{}', 'set()', 'frozenset()', 'range(0)',
+             "np.empty((0, 3), dtype=str)", 'iter([])',
+             "[None]", "[None, 'CAF']", "['CAF', None, 'CAW']", "['CAF', 'CAW', 3]", "[3, 'CAF']", "[float('nan'), 'CAF']", "['CAF', float('nan')]",
+             "['CAF', True]", "['CAF', ('C', 'A')]", "['CAF', ['CAW']]", "['CAF', b'CAW']", "['CAF', np.bytes_(b'CAW')]", "['CAF', np.int64(3)]",
+             "['CAF', np.float64(3.5)]", "['CAF', np.array('CAW')]", "('CAF', None)", "(1, 2)", "(None,)",
+             "np.array([1, 2])", "np.array([1.5, 2.5])", "np.array([b'CAF', b'CAW'])", "np.array(['CAF', None], dtype=object)",
+             "np.array([None, 'CAF'], dtype=object)", "np.array(['CAF', 3], dtype=object)", "np.array([['CAF', 'CAW'], ['CAF', 'CAW']])",
+             "np.array([True, False])",
+             "pd.Series([1, 2])", "pd.Series([1.5, 2.5], index=['a', 'b'])", "pd.Series(['CAF', None])", "pd.Series(['CAF', None], dtype=object)",
+             "pd.Series(['CAF', 3], index=[5, 6])", "pd.Series([None, 'CAF'], index=[1, 0], dtype=object)", "pd.Series(['CAF', float('nan')])",
+             "pd.Series(['CAF', pd.NA], dtype='string')", "pd.Series([b'CAF', b'CAW'])", "pd.Series([('C', 'A'), ('C', 'W')])",
+             "range(3)", "[[]]", "[{}]", "{'CAF': 1, 3: 2}", "{3, 'CAF'}",
+             "_long(None, 'first')", "_long(None, 'middle')", "_long(None, 'last')", "_long(3, 'last')", "_long(b'CAF', 'middle')",
+             "tuple(_long(3.5, 'last'))", "np.array(_long(None, 'last'), dtype=object)", "np.array(_long(7, 'middle'), dtype=object)",
+             "pd.Series(_long(None, 'last'), dtype=object)", "pd.Series(_long(3, 'middle'), index=range(7, 207))",
+             "pd.Series(_long(None, 'last'))"],
+    'max_edits': ['-3', '-2**31', '-10**30', 'False', '0.0', '-0.0', '0.5', '0.999', '2.5', 'np.float64(0.5)', "float('nan')", "float('inf')",
+                  "-float('inf')", '[1]', '(1,)', '{1}', "'2'", "'one'", "b'1'", '1j', 'np.int64(0)', 'np.int64(-1)', 'np.int32(0)', 'np.array(0)',
+                  'np.array([1])', 'Fraction(1, 2)', 'Fraction(-1)', 'np.bool_(False)'],
+    'n_cpu': ['-3', '-8', '-2**31', 'False', 'np.int64(0)', 'np.int64(-2)', '-1.0', '0.0', '0.5', "float('-inf')",
+              'Fraction(1, 2)', 'np.bool_(False)'],
+    'output_type': ["'array'", "'numpy'", "'sparse'", "'list'", "'triplets\\n'", "'coo_matrix,ndarray'", "'ndarray\\x00'", "'coo-matrix'", "'coo matrix'",
+                    "'nd_array'", "'np.ndarray'", "'tripletS'", "'Ndarray'", "['triplets']", "('ndarray',)", "{'coo_matrix'}", "np.str_('dense')", '0', '1.0',
+                    "b'triplets'", "b'coo_matrix'", 'False', 'np.ndarray', 'list', "float('nan')"],
+    'seqs2': ['[1, 2]', "['CAF', None]", '5', "[None]", "['CAF', 3.5]", "[b'CAF']", "['CAF', ('C',)]", "[['CAF']]", "('CAF', 3)", '0', 'True', '1.5',
+              "np.array([1, 2])", "np.array(['CAF', None], dtype=object)", "np.array([b'CAF'])", "pd.Series([1, 2])", "pd.Series(['CAF', None], dtype=object)",
+              "pd.Series(['CAF', 3], index=[4, 2])", "pd.Series(['CAF', float('nan')])", "_long(None, 'last')", "_long(3, 'middle')",
+              "np.array(_long(None, 'first'), dtype=object)", "pd.Series(_long(2.5, 'last'), dtype=object)", "[float('nan')]", "{3}", "range(2)"],
+}
+# one or two representatives per class of the statement, to be combined with every other (valid, non-default) option
+REPRESENTATIVES = [('seqs', '[]'), ('seqs', "['CAF', None]"), ('seqs', "[3, 'CAF']"), ('seqs', "np.array(['CAF', 3], dtype=object)"),
+                   ('seqs', "pd.Series([], dtype=object)"), ('seqs', "_long(None, 'last')"),
+                   ('max_edits', '0'), ('max_edits', '-1'), ('max_edits', '1.5'), ('max_edits', '-2'),
+                   ('n_cpu', '0'), ('n_cpu', '-1'), ('output_type', "'dense'"), ('output_type', "'Ndarray'"), ('output_type', 'None')]
+CONTEXTS = [dict(output_type='coo_matrix'), dict(output_type='ndarray'), dict(seqs2=['CAF', 'CAY']), dict(custom_distance='lev3'),
+            dict(custom_distance='hamming', output_type='ndarray'), dict(max_edits=2), dict(max_edits=3, custom_distance='hamming'), dict(max_returns=2),
+            dict(n_cpu=2), dict(n_cpu=2, output_type='coo_matrix'), dict(max_custom_distance=1.0), dict(compression=2), dict(progress=True),
+            dict(seqs='series_shifted'), dict(seqs='ndarray'), dict(seqs='tuple'), dict(seqs='series_string', seqs2=['CAF']),
+            dict(seqs2=['CAF'], output_type='coo_matrix'), dict(seqs2=['CAF'], custom_distance='hamming', output_type='ndarray')]
+KNOWN_EXPRS = set(e for tab in (BAD, BAD_MORE) for vals in tab.values() for e in vals) | set(e for _, e in REPRESENTATIVES)
+ENGINE_PARAMS = {'symdel': {'seqs2', 'progress'}, 'nearest_neighbor': {'seqs2'}, 'hash_based': {'progress'}, 'kdtree': {'compression'}}
+GOOD = dict(seqs=['CAF', 'CAW'], max_edits=1, max_returns=None, n_cpu=1, custom_distance=None, max_custom_distance=float('inf'), output_type='triplets')
+
+
+def invalid_call(nn, r):
+    """r: dict(engine, bad={argument: source text of the value}, context={option: valid value}) -> outcome of the call."""
+    kw = dict(GOOD)
+    for o, v in (r.get('context') or {}).items():
+        if o == 'custom_distance' and v == 'lev3':
+            v = customs.make(1)
+        if o == 'seqs':
+            v = container(v, GOOD['seqs'], 3)
+        kw[o] = v
+    for arg, expr in r['bad'].items():
+        kw[arg] = value_of(expr)
+    seqs = kw.pop('seqs')
+    fn = getattr(nn, r['engine'])
+
+    def call():
+        with contextlib.redirect_stderr(io.StringIO()):
+            return fn(seqs, **kw)
+    return call_impl(call)
+
+
+def check_invalid(ctx, nn, r, family):
+    g = invalid_call(nn, r)
+    ctx.case(nontrivial_key=('invalid', r['engine'], str(sorted(r['bad'].items())), str(sorted((r.get('context') or {}).items(), key=str))))
+    for arg in r['bad']:
+        ctx.count('invalid_' + arg)
+    if family:
+        ctx.count('family=' + family)
+    if g[0] == 'ok':
+        ctx.violation('property', '%s accepted the invalid argument%s %s%s and returned %s' %
+                      (r['engine'], 's' if len(r['bad']) > 1 else '', ', '.join('%s=%s' % kv for kv in sorted(r['bad'].items())),
+                       (' (with the valid options %s)' % r['context']) if r.get('context') else '', str(g[1])[:100].replace('\n', ' ')),
+                      dict(r, family=family or 'invalid'), site='nn.%s[invalid:%s]' % (r['engine'], '+'.join(sorted(r['bad']))))
+        return False
+    return True
+
+
+def invalid_cases(ctx, nn):
+    rng = ctx.rng
+    ninv = 0
+    for eng in ENGINES:
+        for arg, vals in BAD.items():
+            for v in vals:
+                # every distance mode: an engine may take another code path (length buckets, substitution ball) in Hamming mode
+                for mode_kw in ({}, dict(custom_distance='hamming')):
+                    if arg == 'custom_distance' and mode_kw:
+                        continue
+                    check_invalid(ctx, nn, dict(engine=eng, bad={arg: v}, context=mode_kw), None)
+                    ninv += 1
+        for v in ['[1, 2]', "['CAF', None]", '5']:
+            if eng in ('symdel', 'nearest_neighbor'):
+                check_invalid(ctx, nn, dict(engine=eng, bad={'seqs2': v}, context={}), None)
+                ninv += 1
+    # the classes of the statement in more shapes (containers, positions, lengths, number types), in both distance modes and with a matrix output
+    more = [(eng, arg, v) for eng in ENGINES for arg, vals in BAD_MORE.items() for v in vals if arg != 'seqs2' or 'seqs2' in ENGINE_PARAMS[eng]]
+    rng.shuffle(more)
+    for eng, arg, v in more * (1 if ctx.quick else 3):
+        cx = rng.choice([{}, {}, dict(custom_distance='hamming'), dict(output_type='ndarray'), dict(output_type='coo_matrix', custom_distance='hamming'),
+                         dict(custom_distance='lev3', max_edits=2)])
+        cx = {o: x for o, x in cx.items() if o != arg}
+        check_invalid(ctx, nn, dict(engine=eng, bad={arg: v}, context=cx), 'invalid_shapes')
+        ninv += 1
+    # an invalid argument next to each valid non-default option
+    for eng in ENGINES:
+        usable = []
+        for cx in CONTEXTS:
+            if any(o in ('seqs2', 'progress', 'compression') and o not in ENGINE_PARAMS[eng] for o in cx):
+                continue
+            # not vacuous: the option set alone is accepted (otherwise a rejection below would say nothing about the invalid argument)
+            if invalid_call(nn, dict(engine=eng, bad={}, context=cx))[0] == 'ok':
+                usable.append(cx)
+            else:
+                ctx.note('%s raises on the valid options %s alone; combinations with them skipped' % (eng, cx))
+        ctx.count('valid_option_sets_accepted', len(usable))
+        for arg, v in REPRESENTATIVES:
+            for cx in usable:
+                if arg in cx:
+                    continue
+                check_invalid(ctx, nn, dict(engine=eng, bad={arg: v}, context=cx), 'invalid_with_option')
+                ninv += 1
+    # two invalid arguments at once
+    names = ['seqs', 'max_edits', 'n_cpu', 'output_type', 'seqs2']
+    for _ in range(120 if ctx.quick else 600):
+        eng = rng.choice(ENGINES)
+        a1, a2 = rng.sample([a for a in names if a != 'seqs2' or 'seqs2' in ENGINE_PARAMS[eng]], 2)
+        bad = {a1: rng.choice((BAD.get(a1) or []) + BAD_MORE[a1]), a2: rng.choice((BAD.get(a2) or []) + BAD_MORE[a2])}
+        check_invalid(ctx, nn, dict(engine=eng, bad=bad, context={}), 'invalid_pair')
+        ninv += 1
+    ctx.extra['invalid_argument_calls'] = ninv
 
 
 def run(ctx):
@@ -29,13 +766,13 @@ def run(ctx):
     ctx.rule = ('(a) every engine (symdel, nearest_neighbor, hash_based, kdtree; one- and two-collection symdel; default and Hamming '
                 'mode) x container in {list, tuple, ndarray, Series with default / shifted / permuted / string index} x output_type in '
                 '{triplets, coo_matrix, ndarray}: triplets equal the model, matrices equal the model\'s dense form of the triplets, shape '
-                '(len(seqs), len(seqs2) or len(seqs)); (b) the full product of invalid-argument classes x engine must raise. '
-                'non-trivial := non-default container or non-triplet output, with a non-empty expected result')
-    cases = []
-    engines = ['symdel', 'nearest_neighbor', 'hash_based', 'kdtree']
-    conts = ['list', 'tuple', 'ndarray', 'series_default', 'series_shifted', 'series_permuted', 'series_string']
-    outs_t = ['triplets', 'coo_matrix', 'ndarray']
-    combos = list(itertools.product(engines, conts, outs_t, ['lev', 'ham', 'custom'], [False, True]))
+                '(len(seqs), len(seqs2) or len(seqs)); (a\') the same comparison on the added families (counters family=...): SymdelDB / LookupDB '
+                'lookups, max_edits 2..6, one-element and all-equal collections, 258-300 sequences, further container kinds and mixed kinds for the '
+                'two collections, n_cpu / max_returns / compression / progress / max_custom_distance next to the output type, distances of several '
+                'magnitudes, other alphabets, empty and long strings, repeated calls and one object refilled in place; (b) the full product of '
+                'invalid-argument classes x engine must raise, also next to every valid option, in every container and in pairs. '
+                'non-trivial := non-default container or non-triplet output or an added family, with a non-empty expected result')
+    combos = list(itertools.product(ENGINES, CONTS, OUTS, ['lev', 'ham', 'custom'], [False, True]))
     rng.shuffle(combos)
     if ctx.quick:
         combos = combos[:150]
@@ -47,117 +784,27 @@ def run(ctx):
             two = False
         if mode == 'custom':
             # a callable distance with fractional / scaled values (lev/2, 3*lev, weighted): the matrix forms must carry d unchanged
-            mode = ('custom', rng.choice([2, 2, 1, 4]), rng.choice([1, 2]))
+            mode = ['custom', rng.choice([2, 2, 1, 4]), rng.choice([1, 2])]
         seqs = repertoire(rng, rng.randint(2, 14), extras=False, minlen=1) if mode != 'ham' else c07.ham_repertoire(rng, rng.randint(2, 14))
         seqs = [s for s in seqs if 1 <= len(s) <= 11] or ['CAF', 'CAW']
         seqs2 = None
         if two:
             seqs2 = rng.sample(seqs, min(len(seqs), 3)) + [gens.mutate(rng, rng.choice(seqs), gens.AA, 1) or 'A' for _ in range(rng.randint(1, 5))]
             seqs2 = [s for s in seqs2 if s]
-        plan.append((eng, cont, ot, mode, seqs, seqs2))
-    reqs = []
-    for eng, cont, ot, mode, seqs, seqs2 in plan:
-        if isinstance(mode, tuple):
-            if seqs2 is None:
-                reqs.append(('api_brute_self_custom', [mode[1], mode[2], None, seqs]))
-            else:
-                reqs.append(('api_brute_cross_custom', [mode[1], mode[2], None, seqs, seqs2]))
-        elif seqs2 is None:
-            reqs.append(('api_brute_self_%s' % mode, [1, seqs]))
-        else:
-            reqs.append(('api_brute_cross_%s' % mode, [1, seqs, seqs2]))
-    trips = ctx.oracle.run_parallel(reqs)
-    # dense form by the model; rational distances are scaled by 2 (the only denominators the custom distances produce) and scaled back
-    dreqs = [('api_coo_dense', [len(p[4]), len(p[5]) if p[5] is not None else len(p[4]), [(a, b, int(Fraction(d) * 2)) for a, b, d in t]])
-             for p, t in zip(plan, trips)]
-    dense = [[[Fraction(x, 2) for x in row] for row in m] for m in ctx.oracle.run_parallel(dreqs)]
-    for (eng, cont, ot, mode, seqs, seqs2), t, dm in zip(plan, trips, dense):
-        fn = getattr(nn, eng)
-        cs = containers(rng, seqs)[cont]
-        kw = dict(max_edits=1, output_type=ot)
-        if mode == 'ham':
-            kw['custom_distance'] = 'hamming'
-        elif isinstance(mode, tuple):
-            kw['custom_distance'] = customs.make(mode[1])
-            kw['max_edits'] = mode[2]
-            ctx.count('custom_distance_matrix' if ot != 'triplets' else 'custom_distance_triplets')
-        if seqs2 is not None:
-            kw['seqs2'] = containers(rng, seqs2)[cont]
-        g = call_impl(lambda: fn(cs, **kw))
-        nt = bool(t) and (cont != 'list' or ot != 'triplets')
-        desc = dict(engine=eng, container=cont, output_type=ot, mode=list(mode) if isinstance(mode, tuple) else mode, seqs=seqs, seqs2=seqs2)
-        ctx.count('container=' + cont)
-        ctx.count('output=' + ot)
-        ctx.case(sample=desc if nt and len(ctx.samples) < 6 else None,
-                 nontrivial_key=(eng, cont, ot, str(mode), tuple(seqs), tuple(seqs2 or ())) if nt else None)
-        ok = g[0] == 'ok'
-        why = None
-        if ok:
-            try:
-                if ot == 'triplets':
-                    ok = canon_triplets(g[1]) == canon_model(t)
-                    why = 'triplets differ from the model'
-                else:
-                    m = g[1].toarray() if ot == 'coo_matrix' else np.asarray(g[1])
-                    exp = np.array(dm, dtype=float).reshape(len(seqs), len(seqs2) if seqs2 is not None else len(seqs))
-                    ok = m.shape == exp.shape and np.array_equal(np.asarray(m, dtype=float), exp)
-                    why = 'matrix (shape %s) differs from the dense form of the triplets (shape %s)' % (m.shape, exp.shape)
-            except Exception as e:
-                ok, why = False, 'result not interpretable: %r' % (e,)
-        else:
-            why = 'raised %s' % g[1]
-        if not ok:
-            ctx.violation('property', '%s(%s as %s%s, output_type=%s, %s): %s' %
-                          (eng, seqs, cont, '' if seqs2 is None else ', seqs2=%s' % seqs2, ot, mode, why), desc,
-                          site='nn.%s[%s]' % (eng, 'series-index' if cont in ('series_shifted', 'series_permuted', 'series_string') else 'format'))
-        if len(ctx.violations) > 8:
-            break
-    if plan:
-        ctx.add_vm(*dreqs[0], [[int(x * 2) for x in row] for row in dense[0]])
+        plan.append(dict(family='product', engine=eng, container=cont, container2=None, cseed=rng.randrange(10 ** 6), output_type=ot, mode=mode, k=1,
+                         seqs=seqs, seqs2=seqs2, opts={}, model=True))
+    run_plan(ctx, nn, plan, vm=True)
+    # (a') the added families
+    if len(ctx.violations) <= 8:
+        run_plan(ctx, nn, gen_cases(ctx))
+    if len(ctx.violations) <= 8:
+        run_plan(ctx, nn, large_cases(ctx))
+    if len(ctx.violations) <= 8:
+        same_object_cases(ctx, nn)
+    if len(ctx.violations) <= 8:
+        database_history_cases(ctx, nn)
     # (b) invalid arguments: must raise, never return a result
-    good = dict(seqs=['CAF', 'CAW'], max_edits=1, max_returns=None, n_cpu=1, custom_distance=None, max_custom_distance=float('inf'),
-                output_type='triplets')
-    bad = {
-        'seqs': [[], (), np.array([]), [1, 2], ['CAF', None], ['CAF', 3.5], 7, None, [b'CAF']],
-        'max_edits': [0, -1, 1.0, 1.5, '1', None, True],
-        'max_returns': [0, -2, 1.5, '3'],
-        'n_cpu': [0, -1, 1.0, '2', None],
-        # unknown names, near misses of the three valid ones included (another capitalisation, padding, a prefix, the class name)
-        'output_type': ['dense', 'matrix', None, 3, 'Triplets', 'TRIPLETS', 'COO_matrix', 'coo_Matrix', 'NDARRAY', 'ndArray', ' triplets',
-                        'ndarray ', 'coo', 'triplet', 'csr_matrix', '', b'ndarray', True],
-        'max_custom_distance': [-1, '3', None],
-        'custom_distance': ['levenshtein', (lambda a, b: 1), 5],
-    }
-    ninv = 0
-    for eng in engines:
-        fn = getattr(nn, eng)
-        for arg, vals in bad.items():
-            for v in vals:
-                # every distance mode: an engine may take another code path (length buckets, substitution ball) in Hamming mode
-                for mode_kw in ({}, dict(custom_distance='hamming')):
-                    if arg == 'custom_distance' and mode_kw:
-                        continue
-                    kw = dict(good)
-                    kw.update(mode_kw)
-                    kw[arg] = v
-                    seqs = kw.pop('seqs')
-                    g = call_impl(lambda: fn(seqs, **kw))
-                    ninv += 1
-                    ctx.case(nontrivial_key=('invalid', eng, arg, repr(v), bool(mode_kw)))
-                    ctx.count('invalid_' + arg)
-                    if g[0] == 'ok':
-                        ctx.violation('property', '%s accepted the invalid argument %s=%r%s and returned %s' %
-                                      (eng, arg, v, ' (custom_distance=hamming)' if mode_kw else '', str(g[1])[:100]),
-                                      dict(engine=eng, argument=arg, value=repr(v), mode=mode_kw), site='nn.%s[invalid:%s]' % (eng, arg))
-        for v in [[1, 2], ['CAF', None], 5]:
-            if eng in ('symdel', 'nearest_neighbor'):
-                g = call_impl(lambda: fn(['CAF', 'CAW'], seqs2=v))
-                ninv += 1
-                ctx.case(nontrivial_key=('invalid', eng, 'seqs2', repr(v)))
-                if g[0] == 'ok':
-                    ctx.violation('property', '%s accepted invalid seqs2=%r' % (eng, v), dict(engine=eng, argument='seqs2', value=repr(v)),
-                                  site='nn.%s[invalid:seqs2]' % eng)
-    ctx.extra['invalid_argument_calls'] = ninv
+    invalid_cases(ctx, nn)
     ctx.exhaustive = True
     ctx.assumptions += ['scipy.sparse.coo_matrix(...).toarray() sums entries with equal coordinates (modelled)',
                         'container theorem is definitional in the model (engines take the positional sequence); the tie is this correspondence']
@@ -166,15 +813,16 @@ def run(ctx):
 def replay(ctx, obj):
     import pyrepseq.nn as nn
     r = obj['replay']
-    if 'engine' in r and 'seqs' in r:
-        fn = getattr(nn, r['engine'])
-        cs = containers(ctx.rng, r['seqs'])[r['container']]
-        kw = dict(max_edits=1, output_type=r['output_type'])
-        if isinstance(r.get('mode'), list):
-            kw.update(custom_distance=customs.make(r['mode'][1]), max_edits=r['mode'][2])
-        elif r.get('mode') == 'ham':
-            kw['custom_distance'] = 'hamming'
-        g = call_impl(lambda: fn(cs, **kw))
-        ctx.case(sample=r)
-        if g[0] != 'ok':
-            ctx.violation('property', 'replay still raises %s' % (g[1],), r)
+    if 'bad' in r and 'engine' in r:
+        check_invalid(ctx, nn, r, r.get('family'))
+    elif r.get('family') == 'same_object' and 'script' in r:
+        run_same_object(ctx, nn, r['script'])                  # the object's history is part of the input
+    elif r.get('family') == 'database_history' and 'script' in r:
+        run_database_history(ctx, nn, r['script'])
+    elif 'engine' in r and 'seqs' in r:
+        d = dict(r)
+        d.setdefault('k', 1)
+        d.setdefault('opts', {})
+        run_plan(ctx, nn, [d])
+    else:
+        run(ctx)
